@@ -7,6 +7,7 @@ import r_txn
 import r_taskdb
 import r_storage
 import r_crypto
+import r_wire
 
 PROPS = {}
 
@@ -31,13 +32,13 @@ PROPS["C18"] = {
 }
 
 PROPS["C01"] = {
-    "rules": [r_transform.rule_TP1, r_sync.rule_S1, r_sync.rule_S2, r_sync.rule_S3, r_sync.rule_S9, r_sync.rule_S10, r_sync.rule_S4, r_sync.rule_S5, r_sync.rule_S6],
+    "rules": [r_transform.rule_TP1, r_sync.rule_S1, r_sync.rule_S2, r_sync.rule_S3, r_sync.rule_S9, r_sync.rule_S10, r_sync.rule_S4, r_sync.rule_S5, r_sync.rule_S6, r_wire.rule_W4],
     "explanation": "TR/TP1: the transform's complete decision table is extracted statically from MIR and checked exhaustively over the finite abstract input space against the documented application semantics (diamond property).",
     "not_decided": "convergence over whole histories, N replicas, batching arithmetic",
     "assumptions": [],
 }
 PROPS["C03"] = {
-    "rules": [r_transform.rule_TP1, r_transform.rule_WIN, r_sync.rule_S4, r_sync.rule_S9, r_sync.rule_S10, r_sync.rule_S2],
+    "rules": [r_transform.rule_TP1, r_transform.rule_WIN, r_sync.rule_S4, r_sync.rule_S9, r_sync.rule_S10, r_sync.rule_S2, r_wire.rule_W4],
     "explanation": "TR/WIN: the extracted transform table yields the documented conflict winners (final-state oracle), survivors are field-for-field their operand, and the winner does not depend on argument order for strictly ordered timestamps; exhaustive over the abstract space.",
     "not_decided": "causally ordered overrides and three-replica orderings (consequences of sequential application over a history)",
     "assumptions": [],
@@ -101,6 +102,12 @@ PROPS["C13"] = {
     "explanation": "The sealing scheme is constants, call identities and dataflow, all decided on every path: X1 KDF/AEAD parameters and that the secret and salt reach the KDF unmodified; X2 AAD layout; X3 seal (fresh nonce filled before use, AAD from the payload's version id, tag appended, envelope layout); X4 unseal (length and exact format-byte checks, slices, AEAD failure is an error, result is the AEAD output); X5 every sink in the three remote backends is fed from seal (or key-derivation metadata) and every returned payload comes from unseal; X6 version-id binding table per backend, writer and reader agree; X7 salt provenance.",
     "not_decided": "that ring implements ChaCha20-Poly1305/PBKDF2 correctly; the exhaustive tamper sweep (follows from AEAD once X2-X4 hold)",
     "assumptions": ["ring's AEAD and PBKDF2 are correct", "reqwest/std::fs/serde_json sinks are the only ways bytes leave the host in these modules (sink table in rules/r_crypto.py)"],
+}
+PROPS["C14"] = {
+    "rules": [r_wire.rule_W1, r_wire.rule_W2, r_wire.rule_W3, r_wire.rule_W4],
+    "explanation": "W1 the SyncOp type is exactly the documented operation format (no undo point, no old values); W2 writer and reader wire-name tables read from the serde impls agree with the documentation; W3 the history segment is serde_json of Version{operations: Vec<SyncOp>} filled from unsynced_operations through from_op; W4 conversion tables field by field; W5 no reordering between load and serialisation.",
+    "not_decided": "RFC 3339 rendering/parsing of timestamps at other precisions (chrono/serde behaviour); acceptance of every well-formed foreign document",
+    "assumptions": ["serde_json / chrono serde implementations behave as documented"],
 }
 # reasons shown in MANIFEST.not_applicable for properties not (yet) claimed
 NOT_YET = {}
